@@ -9,10 +9,10 @@ import (
 
 func init() {
 	register(&propCheck{
-		id:    "C01",
-		level: "other",
+		id:          "C01",
+		level:       "other",
 		explanation: "Static necessary conditions of 'at most one holder of the file lock', the structural facts without which no schedule argument can hold: (R1) TryLock reports success only after the raw, non-recursive, fail-if-exists Mkdir of the lock directory returned nil, no tolerant creator (MkDir/MkDirAll) is ever applied to the lock path, and Lock reports success only where TryLock did and loops only on ErrLocked; (R2) inside every function retried by retry.Do in the lock, once a destructive step on the lock path has succeeded no path returns an error (which would re-run the removal and delete a successor's lock); (R3) a stale take-over removes the lock only after an atomic claim (rename) of the directory it judged; (R4) the lock path is a pure function of directory, prefix and id, is the path given to Mkdir and the path removed by Unlock. R2 and R3 are violated by the pinned sources (known findings K1, K2, reproduced); they need an ownership token or rename protocol, i.e. a redesign. Decided on SSA; nothing is executed. Not decided: overlap of hold intervals under real schedules, heartbeat interplay, atomicity of the backend's mkdir.",
-		run:   runC01,
+		run:         runC01,
 		assumptions: []string{
 			"the backend's Mkdir is atomic and fails when the directory exists (true of the OS; the in-memory afero backend is known not to guarantee it)",
 		},
